@@ -58,7 +58,10 @@ def strategy(draw):
     n = draw(st.one_of(st.integers(200, 600), st.integers(200, 3000)))
     nwin = draw(st.integers(1, 10))
     wins = [draw(window_recipe(n)) for _ in range(nwin)]
-    ks = draw(st.integers(5, max(6, n // 6)))
+    ks = draw(st.one_of(st.integers(5, max(6, n // 6)), st.integers(5, max(6, n // 6)), st.integers(1, 4)))
+    dt_jitter = draw(st.sampled_from([None] * 5 + [[0.0, 1e-9, 0.0], [1e-9, 0.0, -2e-9], [0.0, 0.0, 5e-9], [-1e-9, 0.0, 0.0]]))
+    if dt_jitter and ks == 1:
+        ks = 2          # an STA shorter than one sample interval of a component is not a valid request
     sta = ks * dt * draw(st.sampled_from([1.0, 1.0, 1.3, 1.5]))
     ml = draw(st.integers(int(math.ceil(sta / dt)) + 1, int(n * 0.95)))
     lta = ml * dt * draw(st.sampled_from([1.0, 1.0, 1.004]))
@@ -68,7 +71,10 @@ def strategy(draw):
     attach = draw(st.sampled_from(["none", "traditional", "azimuthal", "traditional"]))
     return dict(dt=dt, n=n, windows=wins, sta=sta, lta=lta, limits=[lo1, hi1], wide=[lo2, hi2], components=comps, attach=attach,
                 peakless=[draw(gen.chance(4)) for _ in range(nwin)], k=draw(st.sampled_from([-10, -3, 4, 12])),
-                max_threshold=draw(gen.floats(0.05, 1.2)), max_abs_factor=draw(gen.floats(0.3, 20.0)), normalized=draw(st.booleans()))
+                max_threshold=draw(gen.floats(0.05, 1.2)), max_abs_factor=draw(gen.floats(0.3, 20.0)), normalized=draw(st.booleans()),
+                # components of one recording whose time steps differ within the library's 1e-8 s similarity tolerance
+                # (three files of one sensor with independently rounded headers)
+                dt_jitter=dt_jitter)
 
 
 def _chunks(x, ks, ml):
@@ -112,9 +118,13 @@ def check_case(case):
     comps = tuple(case["components"])
     labels = [f"ncomp={len(comps)}"]
 
+    jit = dict(zip(COMPS, case.get("dt_jitter") or [0.0, 0.0, 0.0]))
+    if case.get("dt_jitter"):
+        labels.append("component-dt-jitter")
+
     def records(scale=1.0, subset=None):
         idx = range(nwin) if subset is None else subset
-        return [hv.SeismicRecording3C(*(hv.TimeSeries(arrays[i][c] * scale, dt) for c in COMPS)) for i in idx]
+        return [hv.SeismicRecording3C(*(hv.TimeSeries(arrays[i][c] * scale, dt + jit[c]) for c in COMPS)) for i in idx]
 
     def make_hvsr():
         if case["attach"] == "none":
@@ -171,7 +181,7 @@ def check_case(case):
     lo, hi = case["limits"]
     decided = 0
     for i in range(nwin):
-        v = [ref_verdict(arrays[i][c], dt, case["sta"], case["lta"], lo, hi) for c in comps]
+        v = [ref_verdict(arrays[i][c], dt + jit[c], case["sta"], case["lta"], lo, hi) for c in comps]
         if all(x == "keep" for x in v):
             decided += 1
             if not S[i]:
@@ -205,6 +215,9 @@ def check_case(case):
             rc = records()
             conj &= selection(rc, stalta(rc, case["limits"], components=(c,)), f"STA/LTA ({c})")
         require(np.array_equal(conj, S), f"examining {comps} gives {S.astype(int).tolist()}, the conjunction of the single components gives {conj.astype(int).tolist()}")
+        rr = records()
+        S_rev = selection(rr, stalta(rr, case["limits"], components=tuple(reversed(comps))), "STA/LTA (components reversed)")
+        require(np.array_equal(S_rev, S), f"examining {comps} gives {S.astype(int).tolist()}, examining {tuple(reversed(comps))} gives {S_rev.astype(int).tolist()}")
 
     # ---- maximum value ---------------------------------------------------------
     maxima = np.array([max(float(np.max(np.abs(arrays[i][c]))) for c in comps) for i in range(nwin)])
